@@ -66,6 +66,9 @@ structure Script where
   norw : Bool := false
   showKeys : Bool := false
   ordered : Option Bool := none
+  /-- `cfg cci M R`: the `CanContinueInvoking` policy is `arg % M != R`; `M = 0` (default) = always continue -/
+  cciM : Nat := 0
+  cciR : Nat := 0
   /-- top-level commands; `none` entries are the copy / move meta-commands (in `metas`, by position) -/
   dos : List QCmd := []
   metas : List (Nat × String) := []
@@ -82,6 +85,7 @@ def behOf (sc : Script) : QBeh where
     match sc.rw.find? (fun p => p.1 == cb) with
     | some p => a + p.2
     | none => a
+  cont := fun arg => if sc.cciM == 0 then true else arg % sc.cciM != sc.cciR
 
 def showRes : QRes → String
   | .unit => "unit"
@@ -146,6 +150,7 @@ def addLine (sc : Script) (line : String) : Script :=
   | ["cfg", "norw", v] => { sc with norw := v != "0" }
   | ["cfg", "include", v] => { sc with showKeys := v != "0" }
   | ["cfg", "ordered", v] => { sc with ordered := if v = "asc" then some true else if v = "desc" then some false else none }
+  | ["cfg", "cci", m, r] => { sc with cciM := nat! m, cciR := nat! r }
   | "beh" :: cb :: nth :: v :: rest =>
     { sc with beh := sc.beh ++ [⟨nat! cb, if nth = "*" then none else some (nat! nth), v != "0", splitSemi rest⟩] }
   | ["do", "qcopy", _] => { sc with metas := sc.metas ++ [(sc.dos.length, "copy")], dos := sc.dos ++ [.emptyq] }
